@@ -21,6 +21,7 @@ import os
 import re
 import shutil
 import struct
+import time
 import uuid as _uuid
 
 from vf import build, run, report, mkgeom
@@ -511,6 +512,7 @@ def argv_for(cfg, mke2fs, path, treedir, noaction=False):
 
 def norm_line(s, path):
     s = s.replace(path, "IMG")
+    s = re.sub(r"\S*/(e2fsck|mke2fs)\b", r"\1", s)
     s = re.sub(r"\d+", "N", s)
     return s.strip()[:160]
 
@@ -871,29 +873,32 @@ def evaluate(cfg, conf, path, e2fsck, env, rng):
 
 def copy_data_extents(src, dst, skip):
     """dst = src[skip:], copying only the data extents (SEEK_DATA), holes stay holes"""
-    with open(src, "rb") as a, open(dst, "wb") as b:
-        size = os.fstat(a.fileno()).st_size
-        b.truncate(size - skip)
+    a = os.open(src, os.O_RDONLY)
+    b = os.open(dst, os.O_WRONLY | os.O_CREAT | os.O_TRUNC, 0o600)
+    try:
+        size = os.fstat(a).st_size
+        os.ftruncate(b, size - skip)
         pos = skip
         while pos < size:
             try:
-                start = os.lseek(a.fileno(), pos, os.SEEK_DATA)
+                start = os.lseek(a, pos, os.SEEK_DATA)
             except OSError:
                 break
             try:
-                end = os.lseek(a.fileno(), start, os.SEEK_HOLE)
+                end = os.lseek(a, start, os.SEEK_HOLE)
             except OSError:
                 end = size
-            os.lseek(a.fileno(), start, os.SEEK_SET)
-            b.seek(start - skip)
-            left = end - start
-            while left > 0:
-                buf = a.read(min(left, 4 << 20))
+            p = start
+            while p < end:
+                buf = os.pread(a, min(end - p, 4 << 20), p)
                 if not buf:
                     break
-                b.write(buf)
-                left -= len(buf)
-            pos = end
+                os.pwrite(b, buf, p - skip)
+                p += len(buf)
+            pos = max(end, pos + 1)
+    finally:
+        os.close(a)
+        os.close(b)
 
 
 def make_device(path, cfg, fill=None):
@@ -918,8 +923,8 @@ def run_case(cfg, conf, tools, env, path, treedir, rng):
     if r.timed_out:
         return res
     if r.rc != 0 or r.sig:
-        msg = (r.etext or r.text).strip().split("\n")
-        res["refusal"] = norm_line(msg[0] if msg else "", path) if msg else ""
+        msg = [l for l in (r.etext or r.text).strip().split("\n") if l.strip()]
+        res["refusal"] = norm_line(msg[-1], path) if msg else ""
         return res
     ev = evaluate(cfg, conf, path, tools["e2fsck"], env, rng)
     res.update(ev)
@@ -1009,6 +1014,8 @@ def repro_case(cfg, tools, env, path, treedir):
         if k == 0:
             keep = path + ".first"
             os.rename(path, keep)
+            # the wall clock must not matter: let it move on by more than a second
+            time.sleep(1.2)
     res["same"] = shas[0] == shas[1]
     if not res["same"]:
         # where do they differ?  (first differing 1 KiB unit)
@@ -1045,10 +1052,12 @@ def _signature(res, kind):
 
 
 def minimise_case(cfg, conf, tools, env, path, treedir, rng, target):
-    """Greedy one-option-at-a-time reduction that keeps violation `target` (key, line) alive.
-    Returns the reduced configuration."""
+    """Greedy one-option-at-a-time reduction that keeps a violation of the class of `target`
+    alive (e2fsck rejection: any e2fsck problem; repro: still not reproducible).  Returns the
+    reduced configuration and, for e2fsck, the first problem line of the reduced case."""
     target = tuple(target)
     tries = 0
+    last_line = [target[1]]
 
     def fails(c):
         nonlocal tries
@@ -1057,27 +1066,42 @@ def minimise_case(cfg, conf, tools, env, path, treedir, rng, target):
             r = repro_case(c, tools, env, path, treedir)
             return r.get("same") is False
         r = run_case(c, conf, tools, env, path, treedir, rng)
-        return any((k, line) == target for k, line, _ in r.get("viol", []))
+        for k, line, _ in r.get("viol", []):
+            if k == target[0]:
+                last_line[0] = line
+                return True
+        return False
     cur = dict(cfg)
     if not fails(cur):
         return {"min_cfg": cur, "confirmed": False, "tries": tries}
-    # a small standard device first (keeps the later steps cheap), then one option at a time
-    steps = [("blocks", None), ("t", "ext4"), ("b", 1024)] + \
-            [(k, FACTOR_VALUES[k][0]) for k in nondefault(cur)]
-    for k, v in steps:
-        if k == "blocks":
-            trial = dict(cur)
-            trial["size"] = "mid"
-            trial["blocks"] = (64 << 20) // cur["b"]
-            trial["boundary"] = "min"
-        else:
-            if cur.get(k) == v:
-                continue
-            trial = dict(cur)
-            trial[k] = v
-        if fails(trial):
-            cur = trial
-    return {"min_cfg": cur, "confirmed": True, "tries": tries}
+    line = last_line[0]
+    # a small standard device first (keeps the later steps cheap), then one option at a time,
+    # repeated until nothing more can be removed (an option may only become removable after
+    # another one it depends on has gone)
+    for rnd in range(4):
+        steps = ([("blocks", None)] if cur.get("boundary") != "min" else []) + \
+                [(k, FACTOR_VALUES[k][0]) for k in nondefault(cur)] + [("t", "ext4"), ("b", 1024)]
+        changed = False
+        for k, v in steps:
+            if k == "blocks":
+                trial = dict(cur)
+                trial["size"] = "mid"
+                trial["blocks"] = (64 << 20) // cur["b"]
+                trial["boundary"] = "min"
+            else:
+                if cur.get(k) == v:
+                    continue
+                trial = dict(cur)
+                trial[k] = v
+                if k == "b" and cur.get("boundary") == "min":
+                    trial["blocks"] = (64 << 20) // v
+            if fails(trial):
+                cur = trial
+                line = last_line[0]
+                changed = True
+        if not changed:
+            break
+    return {"min_cfg": cur, "confirmed": True, "tries": tries, "line": line}
 
 
 def distinguishing(cfg):
@@ -1190,8 +1214,25 @@ def make_trees(seed, root):
         if os.path.exists(d):
             continue
         trees.make_tree(d, run.rng_for(seed, "C07-tree", name), profile="tiny" if name.startswith("tiny") else "std")
-    # settle access times: the first read of a fresh file moves its atime (relatime), later
-    # reads do not; mke2fs -d copies atime into the image
+    # mke2fs -d copies the host atime into the image, so it must not move between two runs.
+    # (1) no mtime in the future (the tree generator spreads mtimes over 19 years from 2014):
+    # with relatime a file whose mtime >= atime gets a new atime on every read
+    now = time.time()
+    allp = []
+    for dp, dns, fns in os.walk(root):
+        allp += [os.path.join(dp, x) for x in dns + fns]
+    for p in sorted(allp, key=lambda x: -x.count("/")) + [os.path.join(root, n) for n in TREES]:
+        try:
+            st = os.lstat(p)
+            mt = trees.MTIME_BASE + (int(st.st_mtime) - trees.MTIME_BASE) % 300000000
+            if mt > now - 86400:
+                mt = trees.MTIME_BASE
+            os.utime(p, (mt, mt), follow_symlinks=False)
+        except (OSError, NotImplementedError):
+            pass
+    time.sleep(0.05)
+    # (2) settle access times: the first read of a fresh file moves its atime (relatime:
+    # atime <= ctime), later reads do not
     for dp, dns, fns in os.walk(root):
         os.listdir(dp)
         for fn in fns:
@@ -1218,9 +1259,16 @@ def main(tier, seed, replay=None, scale=1.0):
     b = build.get_build("plain")
     env = run.base_env(b)
     conf = mkgeom.parse_mke2fs_conf(env["MKE2FS_CONFIG"])
-    tools = {"mke2fs": b.tool("mke2fs"), "e2fsck": b.tool("e2fsck")}
     with run.Work("C07") as w:
         treedir = w.sub("trees")
+        # private copies of the (statically linked) tools and of mke2fs.conf: the shared build
+        # directory may be pruned by a concurrent check run of another tree state
+        tools = {}
+        for t in ("mke2fs", "e2fsck"):
+            tools[t] = os.path.join(w.sub("bin"), t)
+            shutil.copy2(b.tool(t), tools[t])
+        shutil.copy2(env["MKE2FS_CONFIG"], os.path.join(w.dir, "bin", "mke2fs.conf"))
+        env["MKE2FS_CONFIG"] = os.path.join(w.dir, "bin", "mke2fs.conf")
         ctx = {"conf": conf, "work": w.dir, "seed": seed, "env": env, "tools": tools, "trees": treedir,
                "min": {}}
         if replay:
@@ -1258,12 +1306,12 @@ def main(tier, seed, replay=None, scale=1.0):
             elif r["kind"] == "r" and r.get("same") is False:
                 pending.append((i, ("repro", None)))
         minimal = {}        # item index -> distinguishing string
-        MAXMIN, PER_TARGET = 40, 6
+        MAXMIN, PER_TARGET = 48, 24
         per = {}
         batch, rest = [], []
         for i, target in pending:
-            if per.get(target, 0) < PER_TARGET and len(batch) < MAXMIN:
-                per[target] = per.get(target, 0) + 1
+            if per.get(target[0], 0) < PER_TARGET and len(batch) < MAXMIN:
+                per[target[0]] = per.get(target[0], 0) + 1
                 batch.append((i, target))
             else:
                 rest.append((i, target))
@@ -1282,19 +1330,20 @@ def main(tier, seed, replay=None, scale=1.0):
             else:
                 minimal[i] = distinguishing(mr["min_cfg"])
                 results[i]["min_cfg"] = mr["min_cfg"]
-                if (target, minimal[i]) not in [(t, distinguishing(c)) for t, c in known_min]:
-                    known_min.append((target, mr["min_cfg"]))
+                results[i]["min_line"] = mr.get("line")
+                if (target[0], minimal[i]) not in [(t[0], distinguishing(c)) for t, c, _ in known_min]:
+                    known_min.append((target, mr["min_cfg"], mr.get("line")))
         # the remaining cases: attribute to an already minimised cause when the case contains
         # all of its options and removing one of them cures the case; else leave unminimised
         aitems, amap = [], []
         ctx["min"] = {}
         for i, target in rest:
             cfg = items[i][2]
-            for t, mc in known_min:
-                if t != target:
+            for t, mc, mline in known_min:
+                if t[0] != target[0]:
                     continue
                 opts = [k for k in nondefault(mc)] + [k for k in ("t", "b") if mc[k] != {"t": "ext4", "b": 1024}[k]]
-                if any(cfg.get(k) != mc[k] for k in opts) or not opts:
+                if not opts or any((cfg.get(k) is None) if k == "d" else (cfg.get(k) != mc[k]) for k in opts):
                     continue
                 if mc.get("boundary") != "min" and cfg["size"] != mc["size"]:
                     continue
@@ -1305,7 +1354,7 @@ def main(tier, seed, replay=None, scale=1.0):
                 trial[k0] = FACTOR_VALUES[k0][0]
                 ctx["min"][len(aitems)] = list(target)
                 aitems.append(("a", len(aitems), trial, ctx))
-                amap.append((i, distinguishing(mc)))
+                amap.append((i, (distinguishing(mc), mline)))
                 break
             else:
                 minimal[i] = "(unminimised) " + distinguishing(cfg)
@@ -1314,7 +1363,11 @@ def main(tier, seed, replay=None, scale=1.0):
                 rep.harness_error("attribution crashed: %s" % ar["harness"])
                 continue
             rep.count("attribution_runs")
-            minimal[i] = dist if ar.get("cured") else "(unminimised) " + distinguishing(items[i][2])
+            if ar.get("cured"):
+                minimal[i] = dist[0]
+                results[i]["min_line"] = dist[1]
+            else:
+                minimal[i] = "(unminimised) " + distinguishing(items[i][2])
 
         # ---- book-keeping
         optcount = {}
@@ -1400,7 +1453,8 @@ def main(tier, seed, replay=None, scale=1.0):
             seen = set()
             for k, line, what in r.get("viol", []):
                 if k == "e2fsck-fn-rejects":
-                    key = "C07 e2fsck-fn-rejects %s %s" % (minimal.get(i, distinguishing(cfg)), line)
+                    key = "C07 e2fsck-fn-rejects %s %s" % (minimal.get(i, distinguishing(cfg)),
+                                                           r.get("min_line") or line)
                     case["min_cfg"] = r.get("min_cfg")
                     if r.get("min_cfg"):
                         case["min_argv"] = argv_for(r["min_cfg"], "mke2fs", "IMG", "TREES")
